@@ -525,6 +525,8 @@ pub(crate) mod v4 {
                         DestinationUnreachableCode(code)
                     }
                     DestinationUnreachableCode::ROUTE_FAILED => DestinationUnreachableCode(code),
+                    // RFC 1122 (6-12) and RFC 1812 (13-15), e.g. administratively prohibited
+                    DestinationUnreachableCode(6..=15) => DestinationUnreachableCode(code),
                     _ => return Err(super::DeserializeError::DestinationUnreachableCode(code)),
                 },
                 data: packet.split_off(4),
